@@ -29,7 +29,9 @@ def parseTok (s : String) : Option Tok :=
 def parseToks (s : String) : Option (List Tok) :=
   if s == "-" then some [] else sequenceOpt ((s.splitOn " ").map parseTok)
 
-def defScan (defs : List (List Tok)) (cmd : List Tok) : String :=
+/-- `textMode = false`: the tokens are the condition of an `#if` (`trim_whitespace`, `apply_defined = true`);
+    `textMode = true`: ordinary source text, several lines, scanned by `flush_normal` with `apply_defined = false` -/
+def defScan (defs : List (List Tok)) (cmd : List Tok) (textMode : Bool := false) : String :=
   let rec build : List (List Tok) → List Macro → Except Err (List Macro)
     | [], ms => .ok ms
     | d :: r, ms =>
@@ -39,7 +41,7 @@ def defScan (defs : List (List Tok)) (cmd : List Tok) : String :=
   match build defs [] with
   | .error _ => "err:invalid-define"
   | .ok ms =>
-    match applyMacros (fun _ _ => none) bodyRescanFlag argExpandFlag 100000 ms (trim cmd) true with
+    match applyMacros (fun _ _ => none) bodyRescanFlag argExpandFlag 100000 ms (if textMode then cmd else trim cmd) (!textMode) with
     | .ok _ => "done"
     | .error .invalidDefine => "err:invalid-define"
     | .error .macroRequiresArguments => "err:requires-arguments"
@@ -73,21 +75,41 @@ def scriptLex (script : List (Nat × Bool)) : Lex := fun off =>
 def showSpan (sp : Span) : String :=
   toString sp.start ++ "-" ++ toString sp.stop ++ (if sp.endl then "e" else "")
 
-def parseDirs (s : String) : List Dir :=
-  let rec go (k : Nat) : List Char → List Dir
-    | [] => []
-    | c :: r =>
-      (match c with
-       | 'i' => Dir.ifD true
-       | 'I' => Dir.ifD false
-       | 'd' => Dir.ifD true
-       | 'D' => Dir.ifD false
-       | 'l' => Dir.elif true
-       | 'L' => Dir.elif false
-       | 'e' => Dir.els
-       | 'n' => Dir.endif
-       | _ => Dir.text k) :: go (k + 1) r
-  go 0 s.toList
+/-- Directive letters → the tree of files.  `i I d D l L e n` as in `harness/src/c08.rs`, `x` a directive line that
+    starts with a number (`#3`), `(`..`)` an `#include` of a file holding the enclosed lines, anything else a text
+    line; the id of a text line is the index of its letter in the whole string.  Every call consumes a letter, so
+    `length + 1` fuel is enough.  Result: (lines, letters after the closing parenthesis, next index). -/
+def parseLines : Nat → Nat → List Char → Bool → Option (Lines × List Char × Nat)
+  | 0, _, _, _ => none
+  | _ + 1, k, [], nested => if nested then none else some (.nil, [], k)
+  | fuel + 1, k, c :: r, nested =>
+    if c == ')' then (if nested then some (.nil, r, k + 1) else none)
+    else if c == '(' then
+      match parseLines fuel (k + 1) r true with
+      | none => none
+      | some (inner, r', k') =>
+        match parseLines fuel k' r' nested with
+        | none => none
+        | some (rest, r'', k'') => some (.cons (.incl inner) rest, r'', k'')
+    else
+      let d : Dir :=
+        match c with
+        | 'i' => Dir.ifD true
+        | 'I' => Dir.ifD false
+        | 'd' => Dir.ifD true
+        | 'D' => Dir.ifD false
+        | 'l' => Dir.elif true
+        | 'L' => Dir.elif false
+        | 'e' => Dir.els
+        | 'n' => Dir.endif
+        | 'x' => Dir.junk
+        | _ => Dir.text k
+      match parseLines fuel (k + 1) r nested with
+      | none => none
+      | some (rest, r', k') => some (.cons d rest, r', k')
+
+def parseDirs (s : String) : Option Lines :=
+  (parseLines (s.length + 1) 0 s.toList false).map (·.1)
 
 def handle (op : String) (args : List String) : String :=
   match op, args with
@@ -104,15 +126,27 @@ def handle (op : String) (args : List String) : String :=
       | some .panicNoProgress => "panic:no progress"
       | none => "model: out of fuel"
   | "C08.cond", [letters] =>
-    match runFile (parseDirs letters) with
-    | .ok ids => "ok:" ++ ",".intercalate (ids.map toString)
-    | .error .elseNotMatched => "err:else-not-matched"
-    | .error .endIfNotMatched => "err:endif-not-matched"
-    | .error .notFinished => "err:not-finished"
+    match parseDirs letters with
+    | none => "bad-request"
+    | some f =>
+      match runFile f with
+      | .ok ids => "ok:" ++ ",".intercalate (ids.map toString)
+      | .error .elseNotMatched => "err:else-not-matched"
+      | .error .endIfNotMatched => "err:endif-not-matched"
+      | .error .notFinished => "err:not-finished"
+      | .error .elseAfterElse => "err:else-after-else"
+      | .error .elifAfterElse => "err:elif-after-else"
+      | .error .unknownCommand => "err:unknown-command"
+      | .error .panicSlice => "panic:range start index out of range for slice"
   | "C08.defscan", [defsS, cmdS, _scenario] =>
     let defs := if defsS == "-" then some [] else sequenceOpt ((defsS.splitOn "|").map parseToks)
     match defs, parseToks cmdS with
     | some ds, some cmd => defScan ds cmd
+    | _, _ => "bad-request"
+  | "C08.textscan", [defsS, cmdS, _scenario] =>
+    let defs := if defsS == "-" then some [] else sequenceOpt ((defsS.splitOn "|").map parseToks)
+    match defs, parseToks cmdS with
+    | some ds, some cmd => defScan ds cmd true
     | _, _ => "bad-request"
   | "C08.compile", _ => "unsupported: whole-compiler totality is observed by the supervised run, not predicted"
   | _, _ => "unsupported-op"
